@@ -1,6 +1,6 @@
 import Mathlib.Data.Int.Bitwise
 import Mathlib.Data.Nat.Bitwise
-namespace PyBits
+namespace PyBitsHand
 
 def pand (a b : Int) : Int := Int.land a b
 def pxor (a b : Int) : Int := Int.xor a b
@@ -22,4 +22,4 @@ theorem normalize_nat (b f l : Nat) :
   by_cases h : (b &&& l) = 0 <;> simp [h]
 
 #print axioms normalize_nat
-end PyBits
+end PyBitsHand
